@@ -349,6 +349,54 @@ func runC15(r *Run) {
 			})
 			r.Check(sorted, "C15.2", fmt.Sprintf("%s#collected%d(sorted)", FuncName(fn), i+1), w.InstrPos(ap), "a slice filled while ranging over a map must be sorted before it is consumed")
 		}
+		// a comparator handed to a sort in a hash function is a consistent order: each comparison it
+		// makes relates the SAME component of its two elements (comparing a.x with b.y is not an
+		// ordering; the sorted result, and so the hash, would depend on the input order)
+		nc := 0
+		fa.Instrs(func(in ssa.Instruction) {
+			c := callCommon(in)
+			if c == nil {
+				return
+			}
+			_, n := calleeName(c)
+			if !(strings.HasPrefix(n, "sort.Slice") || strings.HasPrefix(n, "slices.SortFunc") || strings.HasPrefix(n, "slices.SortStableFunc") || strings.HasPrefix(n, "sort.SliceStable")) {
+				return
+			}
+			for _, arg := range c.Args {
+				mc, ok := arg.(*ssa.MakeClosure)
+				if !ok {
+					continue
+				}
+				cf, ok := mc.Fn.(*ssa.Function)
+				if !ok {
+					continue
+				}
+				ca := w.A(cf)
+				norm := func(s *Shape) string {
+					return regexp.MustCompile(`\bp[01]\b`).ReplaceAllString(s.String(), "_")
+				}
+				usesElem := func(s *Shape) bool { return regexp.MustCompile(`\bp[01]\b`).MatchString(s.String()) }
+				ca.Instrs(func(x ssa.Instruction) {
+					var l, rr *Shape
+					switch y := x.(type) {
+					case *ssa.BinOp:
+						switch y.Op {
+						case token.LSS, token.GTR, token.LEQ, token.GEQ, token.EQL, token.NEQ:
+							l, rr = ca.sh.Of(y.X), ca.sh.Of(y.Y)
+						}
+					case *ssa.Call:
+						if _, cn := calleeName(&y.Call); (cn == "bytes.Compare" || cn == "strings.Compare" || cn == "cmp.Compare" || cn == "bytes.Equal") && len(y.Call.Args) == 2 {
+							l, rr = ca.sh.Of(y.Call.Args[0]), ca.sh.Of(y.Call.Args[1])
+						}
+					}
+					if l == nil || !usesElem(l) || !usesElem(rr) {
+						return
+					}
+					nc++
+					r.Check(norm(l) == norm(rr), "C15.2", fmt.Sprintf("%s#comparator%d", FuncName(fn), nc), w.InstrPos(x), "sort comparator relates "+truncate(l.String(), 80)+" with "+truncate(rr.String(), 80)+": both sides must be the same component of the two elements")
+				})
+			}
+		})
 	}
 
 	// ---- C15.3 key provenance, over production code and the shipped schemes
